@@ -506,6 +506,26 @@ def run(ctx: Ctx) -> Outcome:
             f.case["decimal_context"] = dc
             f.detail = (f.detail + "; " if f.detail else "") + f"under decimal.localcontext(prec={dc['prec']}, rounding={dc['rounding']})"
             out.violations.append(f)
+    # ---- names outside ASCII (the Lean string model stops at ASCII, see ASSUMPTIONS; oracle only, a fixed list).  "In any letter
+    #      case" is str.capitalize()'s case mapping and nothing wider: a name whose capitalised form is ASCII names what that ASCII
+    #      form names; a string of Unicode decimal digits is the atomic number int() reads; anything else names nothing.
+    NONASCII = ["\u212a", "\u212ar84", "o\u017f", "a\u017f75", "ce\u017fium", "\u017f", "\u00c5", "H\u00e9", "\uff11", "\u0661\u0668", "\uff28",
+                "h\u0131", "\u0130", "\u212b", "\u017fi", "\ufb01", "n\u00e9on", "\u03a7e", "\u0421", "\u0397e"]
+    for a in NONASCII:
+        t = a.capitalize()
+        for acc, st in (("E", 0), ("E", 1), ("mass", 0), ("Z", 0)):
+            got = call_impl(pt, acc, st, a)
+            if t.isascii():
+                want, why = call_impl(pt, acc, st, t), f"what its capitalised form {t!r} names"
+            elif a.isdecimal():
+                want, why = call_impl(pt, acc, st, int(a)), f"the atomic number int() reads ({int(a)})"
+            else:
+                want, why = "err NotAnElement", "nothing (its capitalised form is not an ASCII name and it is not a number)"
+            out.evaluations += 1
+            out.count("nonascii_name")
+            if got != want:
+                out.violations.append(Finding("oracle:nonascii_name", {"accessor": acc, "strict": st, "arg": a, "nonascii": True}, observed=got, expected=want,
+                                              detail=f"the non-ASCII name {a!r} must name {why}"))
     # ---- the oracle's own sources must not contradict each other (raw NIST file vs embedded textbook table)
     for sym, why in T.conflicts:
         got = call_impl(pt, "A", 0, sym)
@@ -530,6 +550,8 @@ def replay(ctx: Ctx, case) -> Outcome:
 
     sideeffects.exercise()
     acc, st, arg = case["accessor"], case["strict"], case["arg"]
+    if case.get("nonascii"):
+        return run(ctx)  # fixed list, oracle only: the whole (fast) run replays it
     if case.get("decimal_context"):
         import decimal
 
